@@ -17,6 +17,7 @@ def run(ctx):
     g_dpor.T2(ctx, mods=["rt::arc"])
     g_dpor.T3(ctx, mods=["rt::arc"])
     ctx.floor("T6", g_dpor.T6(ctx, mods=["rt::arc"]), 1, "Arc Inspect (inc / dec slots)")
+    ctx.floor("T7", g_dpor.T7(ctx, mods=["rt::arc"]), 1, "Arc dependence lookup")
     g_dpor.V3(ctx, subset=("rt::arc",))
     g_dpor.V1(ctx, subset=("rt::arc", "sync::arc", "<sync::arc"))
     g_sync.run_all(ctx, ["Y1:arc"])
